@@ -51,12 +51,12 @@ def witnesses():
     """(name, files, args, multi_procs, note)"""
     w = []
 
-    def add(name, files, args=None, procs=None, dirs=None):
+    def add(name, files, args=None, procs=None, dirs=None, fmt=''):
         files = dict(files)
         if args is None:
             args = [WF + 'w.yml']
         w.append({'name': name, 'files': [{'path': p, 'content': c} for p, c in sorted(files.items())], 'args': args,
-                  'gomaxprocs': procs or [1, 2, 4, 16], 'dirs': dirs or ['repo/.git']})
+                  'gomaxprocs': procs or [1, 2, 4, 16], 'dirs': dirs or ['repo/.git'], 'format': fmt})
 
     add('format-placeholders', {WF + 'w.yml': wf(job('a', ["run: echo ${{ format('{0}{1}{2}{3}{4}{5}', 1) }}"]))})
     add('format-unused-args', {WF + 'w.yml': wf(job('a', ["run: echo ${{ format('x', 1, 2, 3, 4) }}"]))})
@@ -92,6 +92,31 @@ def witnesses():
     add('json-literal-keys-differ-in-case', {WF + 'w.yml': wf(job('a', ["run: echo ${{ fromJSON('{\"A\":{\"x\":1},\"a\":1,\"B\":[1],\"b\":{\"y\":2}}').a.x }} ${{ fromJSON('{\"K\":1,\"k\":{\"z\":1}}').k.z }}"]))})
     add('dispatch-inputs', {WF + 'w.yml': 'on:\n  workflow_dispatch:\n    inputs:\n' + ''.join('      i%s:\n        type: choice\n        default: zz\n        options: [a]\n' % c for c in 'dcba') +
                             'jobs:\n  a:\n    runs-on: ubuntu-latest\n    steps:\n      - run: echo ${{ inputs.nope }}\n'})
+    # typing sites that could fold over a map: object filters over objects whose properties have different types
+    filt_steps = ('      - run: echo ${{ matrix.*.x.y }} ${{ matrix.*.x.y.z }} ${{ matrix.*.x[0] }} ${{ matrix.*.x.* }}\n'
+                  "      - run: echo ${{ join(matrix.*.x.y, ',') }} ${{ join(matrix.*.x) }} ${{ contains(matrix.*.x.y, 1) }} ${{ matrix.*.x == 1 }}\n")
+    for nm, rows in (('scalars', ['1', 'true', 'foo']), ('scalars-2', ['foo', '1.5', 'false', '0x10']), ('with-null', ['1', 'null', 'foo']),
+                     ('mixed', ['1', 'true', 'foo', '{y: 1}', '[1]', 'null']), ('objects', ['{y: 1}', '{y: true}', '{y: s}', '{z: 1}'])):
+        add('object-filter-props-' + nm,
+            {WF + 'w.yml': HEAD + 'jobs:\n  a:\n    runs-on: ubuntu-latest\n    strategy:\n      matrix:\n' +
+             ''.join('        %s: [{x: %s}]\n' % (k, v) for k, v in zip('abcdefgh', rows)) + '    steps:\n' + filt_steps +
+             "      - run: echo ${{ fromJSON('{" + ','.join('"%s":{"x":%s}' % (k, {'foo': '"s"', '{y: 1}': '{"y":1}', '[1]': '[1]', '{y: true}': '{"y":true}',
+                                                                                       '{y: s}': '{"y":"s"}', '{z: 1}': '{"z":1}', '0x10': '16'}.get(v, v))
+                                                     for k, v in zip('abcdefgh', rows)) + "}').*.x.y }}\n"})
+    add('object-filter-contexts', {WF + 'w.yml': HEAD + 'jobs:\n  p:\n    runs-on: ubuntu-latest\n    outputs:\n      o1: a\n      o2: b\n    steps:\n      - run: echo\n'
+                                   '  q:\n    runs-on: ubuntu-latest\n    outputs:\n      o1: a\n      o3: b\n    steps:\n      - run: echo\n'
+                                   '  a:\n    needs: [p, q]\n    runs-on: ubuntu-latest\n    steps:\n      - id: s1\n        run: echo\n      - id: s2\n        uses: actions/cache@v4\n        with:\n          path: p\n          key: k\n'
+                                   '      - run: echo ${{ needs.*.outputs.o1.zz }} ${{ needs.*.outputs.o2 }} ${{ needs.*.result.zz }} ${{ github.event.*.x.y }} ${{ steps.*.outputs.q.r }} ${{ steps.*.outputs.cache-hit.x }} ${{ steps.*.conclusion.x }}\n'})
+    # several jobs on ONE line (flow style): the tie between jobs must still be broken deterministically
+    add('flow-style-jobs-one-line', {WF + 'w.yml': HEAD + 'jobs: {d: {uses: ./.github/workflows/nothere.yml}, c: {uses: ./.github/workflows/nothere.yml}, '
+                                     'b: {uses: ./.github/workflows/nothere.yml}, a: {uses: ./.github/workflows/nothere.yml}}\n'})
+    add('flow-style-jobs-one-line-action', {WF + 'w.yml': HEAD + 'jobs: {' + ', '.join('%s: {runs-on: ubuntu-latest, steps: [{uses: ./.github/actions/broken}]}' % n for n in 'dcba') + '}\n',
+                                            'repo/.github/actions/broken/action.yml': BROKEN_ACTION})
+    # configuration errors are results too
+    add('config-several-invalid-globs', {WF + 'w.yml': wf(job('a', ['run: echo ${{ foo }}'])),
+                                         'repo/.github/actionlint.yaml': 'paths:\n' + ''.join('  "%s[": {}\n' % c for c in 'edcba')})
+    add('config-several-invalid-ignore', {WF + 'w.yml': wf(job('a', ['run: echo ${{ foo }}'])),
+                                          'repo/.github/actionlint.yaml': 'paths:\n' + ''.join('  "%s/**": {ignore: ["(%s"]}\n' % (c, c) for c in 'edcba')})
     # multi-file witnesses
     three = {WF + '%s.yml' % n: wf(job('j', ['uses: ./.github/actions/broken', 'run: echo ${{ foo }}'])) for n in 'abc'}
     three['repo/.github/actions/broken/action.yml'] = BROKEN_ACTION
@@ -105,6 +130,10 @@ def witnesses():
     ok3['repo/.github/actions/req/action.yml'] = REQ_ACTION
     ok3['repo/.github/actions/req/index.js'] = '// main\n'          # a well-formed shared action (control)
     add('multi-file-order', ok3, [WF + 'c.yml', WF + 'a.yml', WF + 'b.yml'])
+    # the rendered output of a custom template (applied once to the whole result) for every degree of parallelism
+    add('multi-file-order-format-json', ok3, [WF + 'c.yml', WF + 'a.yml', WF + 'b.yml'], fmt='{{json .}}')
+    add('multi-file-order-format-range', ok3, [WF + 'c.yml', WF + 'a.yml', WF + 'b.yml'],
+        fmt='<{{range $i, $e := .}}{{$i}}={{$e.Filepath}}:{{$e.Line}}:{{$e.Column}}:{{$e.Kind}}|{{end}}>')
     callee2 = ('on:\n  workflow_call:\n    inputs:\n      x:\n        type: string\n        required: true\n        default: null\n'
                'jobs:\n  x:\n    runs-on: ubuntu-latest\n    steps:\n      - run: echo\n')
     callee3 = ('on:\n  workflow_call:\n    inputs:\n' + ''.join('      %s:\n        type: string\n        required: true\n%s' % (n, d) for n, d in
@@ -143,8 +172,22 @@ def encode_diags(diags, args, msgids):
     return out
 
 
+def clock_probe(sd, tier, box):
+    try:
+        out = os.path.join(sd, 'clock.json')
+        vplib.run_harness(['clock-probe', out] + (['short'] if tier == 'quick' else []), timeout=600)
+        box['res'] = json.load(open(out))
+    except Exception as e:            # reported by the caller as inconclusive
+        box['err'] = repr(e)
+
+
 def run(ck, tier):
     sd = vplib.subdir('c02')
+    vplib.build_harness()
+    import threading
+    box = {}
+    th = threading.Thread(target=clock_probe, args=(sd, tier, box))
+    th.start()
     r = vplib.run_tlc('Emission', 'Emission_quick.cfg' if tier == 'quick' else 'Emission_thorough.cfg', timeout=3000)
     ck.add_tlc('Emission: every order of every map-sourced site; characterisation of deterministic output', r)
     if r.violated:
@@ -192,7 +235,7 @@ def run(ck, tier):
             pos.setdefault((d['file'], d['line'], d['col']), set()).add(d['msg'])
         tied = sum(1 for v in pos.values() if len(v) > 1)
         tied_total += 1 if tied else 0
-        if not first['diags']:
+        if not first['diags'] and not first['fatal']:
             ck.note('witness %s produces no diagnostic (vacuous)' % c['name'])
         for k, oc in enumerate(o['outcomes']):
             textid = msgids.setdefault('TEXT:' + oc['text'], len(msgids) + 1) if oc['text'] else 0
@@ -248,15 +291,45 @@ def run(ck, tier):
     ck.cov['rule'] = ('one witness input per map-sourced emission site of the catalogue (plus controls), each linted %d times in '
                       'one process with GOMAXPROCS cycling over 1,2,4,16; non-trivial = the witness really produces two '
                       'different diagnostics at one position' % reps)
+    # ---- wall clock: a fixed workflow with cron triggers around the next minute boundary, linted before / between / after
+    th.join()
+    if 'res' not in box:
+        raise Inconclusive('clock probe failed: %s' % box.get('err'))
+    pr = box['res']['probes']
+    for p_ in pr[1:]:
+        if p_['diags'] != pr[0]['diags'] or p_['fatal'] != pr[0]['fatal']:
+            a = [(d['line'], d['col'], d['msg']) for d in pr[0]['diags']]
+            b = [(d['line'], d['col'], d['msg']) for d in p_['diags']]
+            ck.violation('nondeterministic:wall-clock',
+                         'the same workflow linted at %s and at %s gave different results: only first %s, only second %s'
+                         % (pr[0]['at'], p_['at'], [x for x in a if x not in b][:3], [x for x in b if x not in a][:3]),
+                         {'kind': 'clock', 'workflow': box['res']['workflow'], 'probes': pr})
+            break
+    if not pr[0]['diags']:
+        ck.note('clock probe workflow produced no diagnostic (vacuous)')
+    ck.cov['evaluations'] += len(pr)
+    ck.cov['clock_probes'] = len(pr)
     ck.sample({'witness': cases[0]['name'], 'workflow': cases[0]['files'][0]['content'], 'outcomes': len(res[0]['outcomes'])})
     ck.assumptions += ['Go map iteration order and goroutine schedules cannot be forced: detection is by repetition '
                        '(probabilistic), soundness is not affected (two real outputs that differ)',
-                       'sites not in the catalogue are not exercised']
+                       'sites not in the catalogue are not exercised',
+                       'the wall clock cannot be set: the clock probe lints one workflow whose cron triggers surround the next '
+                       'minute boundary at 2 (quick) or 3 instants around it; other kinds of clock dependence are not exercised']
 
 
 def replay(path):
     rp = json.load(open(path))['replay']
     sd = vplib.subdir('c02r')
+    if rp.get('kind') == 'clock':
+        box = {}
+        clock_probe(sd, 'thorough', box)
+        pr = box['res']['probes']
+        for p_ in pr:
+            print(p_['at'], [(d['line'], d['msg'][:70]) for d in p_['diags']])
+        return 1 if any(p_['diags'] != pr[0]['diags'] for p_ in pr) else 0
+    if rp.get('kind') != 'determinism':
+        print('re-run the check for this kind of violation')
+        return 1
     c = dict(rp['case'], reps=400)
     vplib.write_jsonl(os.path.join(sd, 'cases.jsonl'), [c])
     vplib.run_harness(['det-run', os.path.join(sd, 'cases.jsonl'), os.path.join(sd, 'out.jsonl')], timeout=600)
